@@ -374,6 +374,8 @@ class Polarization(BaseState):
             self.expand()
 
         operation.compute_dimensions(0, jnp.array([0]))
+        if operation.operator.shape != (self.dimensions, self.dimensions):
+            raise ValueError("Operator has the wrong dimensions")
 
         if self.expansion_level == ExpansionLevel.Vector:
             assert isinstance(self.state, jnp.ndarray)
